@@ -471,7 +471,7 @@ func (g *gen) wideCase(id string) *EvalCase {
 	if r.chance(1, 4) {
 		c.Ctx = WCtx{T: "multi", Cs: []WSCtx{sc, g.sctx("org")}}
 	}
-	n := pick(r, []int{8, 9, 16, 17, 32, 33, 63, 64, 65, 127, 128, 129, 255, 256, 257, 512, 1024, 1025})
+	n := pick(r, []int{8, 9, 16, 17, 32, 33, 63, 64, 65, 127, 128, 129, 255, 256, 257, 512, 1024, 1025, 4096, 5000})
 	pos := pick(r, []int{0, n - 1, n / 2, -1}) // where the deciding element sits; -1 = absent
 	f := simpleFlag("wide", true, 0, 3)
 	f.Form = pick(r, []string{"pre", "plain", "json", "builder"})
@@ -1152,6 +1152,23 @@ func genStream(name string, r *rng, id string) *EvalCase {
 		rawifyData(c, r)
 	}
 	if r.chance(1, 8) {
+		// tombstones: a deleted flag or segment is data like any other as far as evaluation goes
+		// (the SDK filters them out before they reach the evaluator, or does not)
+		if r.bool() {
+			c.Flag.Meta.Deleted = true
+		}
+		for i := range c.Store.Flags {
+			if r.chance(1, 3) {
+				c.Store.Flags[i].Meta.Deleted = true
+			}
+		}
+		for i := range c.Store.Segments {
+			if r.chance(1, 3) {
+				c.Store.Segments[i].Deleted = true
+			}
+		}
+	}
+	if r.chance(1, 8) {
 		// the store also holds the evaluated flag itself, under its own key (the worker then hands
 		// the store's object to Evaluate half of the time)
 		held := false
@@ -1438,6 +1455,10 @@ func (g *gen) bucketEdgeCase(id string) *EvalCase {
 // power of two (block sizes of buffered readers, pooled scratch slices, unrolled loops).
 func widenLists(r *rng, f *WFlag, s *WSegment) {
 	n := pick(r, []int{63, 64, 65, 127, 128, 129, 255, 256, 257, 384, 512, 1023, 1024, 1025, 2048})
+	if r.chance(1, 6) {
+		// and far beyond: growth steps of append, chunked readers and writers, "large value" paths
+		n = pick(r, []int{3000, 3584, 3585, 4095, 4096, 4097, 5000, 6000, 8191, 8192, 8704, 8705, 9000, 9216, 10000, 12000, 16384, 20000})
+	}
 	keys := make([]string, n)
 	for i := range keys {
 		keys[i] = fmt.Sprintf("w%05d", i)
